@@ -321,6 +321,17 @@ fn build_files(scn: &Scn, streams: &[(u8, Vec<u8>)], lay: &Layout) -> (Vec<Midas
     const MASKS: [u16; 6] = [0, 0, 1, 4, 0xFFFF, 0x8000];
     let mut events: Vec<Event> = Vec::new();
     let mut serial = 0u32;
+    // the event header carries the DAQ host's wall clock (seconds): steady, stepping back and forth
+    // (clock adjusted during the run), or meaningless - the programs go by file order
+    let clock_mode = (lay.seed >> 40) % 3;
+    let stamp = move |serial: u32| -> u32 {
+        let h = (serial as u64 ^ (lay.seed >> 8)).wrapping_mul(0x9E37_79B9_7F4A_7C15) >> 32;
+        match clock_mode {
+            0 => 1_600_000_000 + serial / 7,
+            1 => (1_600_000_000 + serial / 7 + 3).wrapping_sub((h % 7) as u32),
+            _ => [0u32, u32::MAX, 1, h as u32, 1_600_000_000, (h >> 3) as u32][(h % 6) as usize],
+        }
+    };
     let noise = |r: &mut Rng, events: &mut Vec<Event>, serial: &mut u32| {
         // foreign events; a main event carrying a CBF1 bank must be ignored (event id is not 4)
         let id = *r.pick(&[1u16, 8, 2, 1]);
@@ -329,7 +340,7 @@ fn build_files(scn: &Scn, streams: &[(u8, Vec<u8>)], lay: &Layout) -> (Vec<Midas
             banks.push(Bank { name: "CBF2".into(), data: vec![0xAB; 8] });
         }
         *serial += 1;
-        events.push(Event { id, mask: MASKS[(*serial % 6) as usize], serial: *serial, timestamp: 1_600_000_000 + *serial / 7, width: *r.pick(&widths), banks });
+        events.push(Event { id, mask: MASKS[(*serial % 6) as usize], serial: *serial, timestamp: stamp(*serial), width: *r.pick(&widths), banks });
     };
     while queues.iter().any(|q| !q.1.is_empty()) {
         if r.chance(1, 3) {
@@ -347,7 +358,7 @@ fn build_files(scn: &Scn, streams: &[(u8, Vec<u8>)], lay: &Layout) -> (Vec<Midas
             }
         }
         serial += 1;
-        events.push(Event { id: 4, mask: MASKS[(serial % 6) as usize], serial, timestamp: 1_600_000_000 + serial / 7, width: *r.pick(&widths), banks });
+        events.push(Event { id: 4, mask: MASKS[(serial % 6) as usize], serial, timestamp: stamp(serial), width: *r.pick(&widths), banks });
     }
     if r.chance(1, 2) {
         noise(&mut r, &mut events, &mut serial);
